@@ -1,6 +1,12 @@
 """CLI effect rules over crate `stylua` (and `stylua_lib` for the who-may-write census):
 R-FS, R-EXIT, R-ATOMIC, R-STDOUT, R-WORKERS, R-WALK."""
 from engine import Report
+
+
+def _view(prog):
+    from inline import crate_view, KNOWN_STYLUA
+    return crate_view(prog, "stylua", KNOWN_STYLUA)
+
 from facts import *
 
 FS_MUTATORS = re.compile(
@@ -50,6 +56,7 @@ def rule_fs(ctx, prop, stdin_clause=False):
                                "!opt.check, after format_code returned Ok, only when the text differs, writing the "
                                "formatted text to the path that was read")
     for cfg, prog in ctx.programs.items():
+        prog = _view(prog)
         sites = [(f, bi, t) for f, bi, t in call_sites(prog, FS_MUTATORS)]
         nread = len(list(call_sites(prog, r"^std::fs::(read|read_to_string|File::open|metadata|read_dir)")))
         rep.floor("file-system read call sites (proves std::fs callees resolve)", nread, 2, cfg)
@@ -198,6 +205,7 @@ def rule_exit(ctx, prop):
     rep = Report(prop, "R-EXIT", "who reads/writes EXIT_CODE, with which constants; status read after join; passed "
                                  "to process::exit; worker panics map to 2")
     for cfg, prog in ctx.programs.items():
+        prog = _view(prog)
         uses, fns_with_ref = static_uses(prog, "EXIT_CODE")
         rep.floor("EXIT_CODE accesses", len(uses), 3, cfg)
         writers = []
@@ -376,6 +384,7 @@ def rule_atomic(ctx, prop):
                                    "write must be an atomic monotone update (fetch_max, or a store of the top "
                                    "element); workers capture no shared mutable state")
     for cfg, prog in ctx.programs.items():
+        prog = _view(prog)
         uses, _ = static_uses(prog, "EXIT_CODE")
         nwr = 0
         for f, bi, t, m, consts in uses:
@@ -431,6 +440,7 @@ def rule_stdout(ctx, prop, stdin_clause=False):
                                    "two write_all calls of the output thread whose payload is the "
                                    "SuccessBufferedOutput / Diff buffer")
     for cfg, prog in ctx.programs.items():
+        prog = _view(prog)
         sites = list(call_sites(prog, r"^std::io::(_print|stdout)$"))
         sites += [(f, b, t) for f, b, t in call_sites(prog, r"^std::io::_print$") if False]
         rep.floor("stdout call sites", len(sites), 5, cfg)
@@ -552,6 +562,7 @@ def rule_workers(ctx, prop):
     rep = Report(prop, "R-WORKERS", "results travel as values: every worker sends exactly its Result over the channel; "
                                     "the output loop has no early exit")
     for cfg, prog in ctx.programs.items():
+        prog = _view(prog)
         f = prog.fn("stylua", "format")
         if not rep.anchor(f is not None, "fn format", cfg):
             continue
@@ -609,11 +620,25 @@ def rule_workers(ctx, prop):
     return rep
 
 
+def _insert_guards(f, ins, db):
+    """the dispatch block db runs only when HashSet::insert returned true (newly inserted)"""
+    from r_guard import _switch_on
+    ib, it = ins
+    if it.get("t") is None or it["dst"].get("p"):
+        return False
+    sw = _switch_on(f, it["dst"]["l"], it["t"])
+    if sw is None:
+        return False
+    _, tr, fl = sw
+    return f.dominates(tr, db) and db not in f.reach_from(fl, avoid={ib})
+
+
 def rule_walk(ctx, prop):
     import extract
     rep = Report(prop, "R-WALK", "file selection wiring: de-duplication before dispatch, default globs per "
                                  "configuration, hidden(!allow_hidden), custom ignore file name, explicit-path predicate")
     for cfg, prog in ctx.programs.items():
+        prog = _view(prog)
         f = prog.fn("stylua", "format")
         if not rep.anchor(f is not None, "fn format", cfg):
             continue
@@ -633,7 +658,10 @@ def rule_walk(ctx, prop):
         db = disp[0]
         contains = [(b, t) for b, t in f.calls() if re.search(r"HashSet::<T, S, A>::contains$", callee(t))]
         inserts = [(b, t) for b, t in f.calls() if re.search(r"HashSet::<T, S, A>::insert$", callee(t))]
-        if len(contains) == 0 or len(inserts) == 0:
+        if len(contains) == 0 and len(inserts) == 1 and _insert_guards(f, inserts[0], db):
+            # `if !seen_files.insert(path) { continue }`: insert() answers "was it new?" and records it in one step
+            rep.inst("stylua::format dispatch-dominated-by-not-seen-and-insert", {"form": "insert() result"}, cfg, ok=True)
+        elif len(contains) == 0 or len(inserts) == 0:
             rep.inst("stylua::format dispatch-dominated-by-not-seen-and-insert", None, cfg, ok=False)
             rep.violation("stylua::format dedup-not-enforced",
                           "the format_file dispatch is not preceded by `seen_files.contains(path)` / `seen_files.insert(path)`: "
@@ -663,8 +691,10 @@ def rule_walk(ctx, prop):
             # the worker's path is the de-duplicated path
             # (closure upvar provenance shares a root with the contains key)
         # (2) default glob constants
-        ini = prog.fn("stylua", "<format::DEFAULT_GLOB as std::ops::Deref>::deref::__static_ref_initialize")
-        if rep.anchor(ini is not None, "DEFAULT_GLOB initialiser", cfg):
+        inis = [g for g in prog.fns("stylua") if g.path.endswith("__static_ref_initialize") and
+                any(callee(t) == "globset::Glob::new" for _, t in g.calls())]
+        ini = inis[0] if len(inis) == 1 else None
+        if rep.anchor(ini is not None, "DEFAULT_GLOB initialiser (the lazy static that builds the default GlobSet)", cfg):
             globs = []
             for b, t in ini.calls():
                 if callee(t) == "globset::Glob::new":
@@ -682,6 +712,11 @@ def rule_walk(ctx, prop):
             im = [(b, t) for b, t in f.calls() if callee(t) == "globset::GlobSet::is_match"]
             if rep.anchor(len(im) == 1, "DEFAULT_GLOB.is_match in format", cfg):
                 e = bool_edge(f, im[0][0])
+                if e is None and im[0][1].get("t") is not None and not im[0][1]["dst"].get("p"):
+                    from r_guard import _switch_on
+                    sw_ = _switch_on(f, im[0][1]["dst"]["l"], im[0][1]["t"], depth=10)
+                    if sw_ is not None:
+                        e = (sw_[1], sw_[2])
                 if e is None:
                     # negated: `if !is_match { continue }`
                     nb = f.blocks[im[0][1]["t"]]
@@ -693,7 +728,7 @@ def rule_walk(ctx, prop):
                 okm = False
                 if e:
                     matched, notmatched = e
-                    okm = db not in f.reach_from(notmatched, avoid={contains[0][0]} if contains else ())
+                    okm = db not in f.reach_from(notmatched, avoid={contains[0][0]} if contains else ({inserts[0][0]} if inserts else ()))
                 rep.inst("stylua::format glob-mismatch-skips-file", None, cfg, ok=okm)
                 if not okm:
                     rep.violation("stylua::format glob-mismatch-does-not-skip",
@@ -824,6 +859,7 @@ def rule_err_status(ctx, prop):
     rep = Report(prop, "R-ERRSTATUS", "every path of the output thread that handles an Err result raises the exit status to 2 "
                                       "(through error!, whose logger stores 2, or by writing EXIT_CODE directly)")
     for cfg, prog in ctx.programs.items():
+        prog = _view(prog)
         oc = prog.fn("stylua", "format::{closure#0}")
         if not rep.anchor(oc is not None, "output closure format::{closure#0}", cfg):
             continue
@@ -899,6 +935,7 @@ def rule_loop_exit(ctx, prop):
                                      "abort the whole run; per-file failures must travel to the output thread as values")
     allowed = re.compile(r"^(path_is_stylua_ignored|config::ConfigResolver::<'_>::load_configuration(_for_stdin)?)$")
     for cfg, prog in ctx.programs.items():
+        prog = _view(prog)
         f = prog.fn("stylua", "format")
         if not rep.anchor(f is not None, "fn format", cfg):
             continue
@@ -941,6 +978,7 @@ def rule_nodiff(ctx, prop):
     rep = Report(prop, "R-NODIFF", "the functions that turn (old, new) into an optional diff decide `no difference` by exact "
                                    "tests: no floating-point comparison takes part in any of their decisions")
     for cfg, prog in ctx.programs.items():
+        prog = _view(prog)
         fns = [f for f in prog.fns("stylua") if re.search(r"^(output_diff::|create_diff$|format_file$|format_string$)", f.path)]
         if not rep.anchor(len(fns) >= 4, f"diff producers in the stylua crate ({len(fns)})", cfg):
             continue
@@ -978,6 +1016,7 @@ def rule_ignore_arg(ctx, prop):
     rep = Report(prop, "R-IGNOREARG", "every call of path_is_stylua_ignored passes opt.search_parent_directories itself "
                                       "(no derived condition), in file mode and in stdin mode alike")
     for cfg, prog in ctx.programs.items():
+        prog = _view(prog)
         sites = list(call_sites(prog, r"(^|::)path_is_stylua_ignored$", "stylua"))
         for f, b, t in sites:
             k = path_key(access_path(f, t["args"][1]))
